@@ -1,11 +1,13 @@
 package sim
 
 import (
-	"strings"
 	"bytes"
 	"fmt"
+	"os"
 	"runtime"
+	"strings"
 	"sync"
+	"syscall"
 	"testing/synctest"
 	"time"
 )
@@ -27,6 +29,7 @@ import (
 type Task struct {
 	Name    string
 	ID      int
+	gid     uint64
 	gate    chan struct{}
 	parked  bool
 	site    string
@@ -36,25 +39,27 @@ type Task struct {
 }
 
 type Sched struct {
-	Tasks    []*Task
-	Choices  []int // choice stream (program data)
-	pos      int
-	Trace    []string // decisions taken (event log)
-	Steps    int
-	MaxSteps int
-	Advances []time.Duration // clock-advance options offered at every decision
-	OnStep   func() error    // invariant evaluated after every step
-	Stalled  bool
-	NoHB     bool // race-detector friendly hand-off
-	Draining bool // yields are no-ops: let everything run to completion
-	Holds    []Hold
-	holdSeen []int // per hold: matching parks seen so far
-	holdLeft []int // per hold: decisions the task is still held for
-	HoldsHit int
-	Sticky   int  // per mille: probability that the task that ran last runs again (bursts: few preemptions, as in PCT)
-	byGID    map[uint64]*Task
-	mu       sync.Mutex
-	nreg     int
+	Tasks        []*Task
+	Choices      []int // choice stream (program data)
+	pos          int
+	Trace        []string // decisions taken (event log)
+	Steps        int
+	MaxSteps     int
+	Advances     []time.Duration // clock-advance options offered at every decision
+	OnStep       func() error    // invariant evaluated after every step
+	Stalled      bool
+	NoHB         bool // race-detector friendly hand-off
+	Draining     bool // yields are no-ops: let everything run to completion
+	Holds        []Hold
+	holdSeen     []int // per hold: matching parks seen so far
+	holdLeft     []int // per hold: decisions the task is still held for
+	HoldsHit     int
+	SlowSettles  int  // quiescence had to be established by synctest.Wait (diagnostics)
+	TraceBlocked bool // record where a task blocked without parking (diagnostics)
+	Sticky       int  // per mille: probability that the task that ran last runs again (bursts: few preemptions, as in PCT)
+	byGID        map[uint64]*Task
+	mu           sync.Mutex
+	nreg         int
 }
 
 func NewSched(choices []int) *Sched {
@@ -82,7 +87,8 @@ func (s *Sched) Go(name string, fn func(t *Task)) *Task {
 	s.Tasks = append(s.Tasks, t)
 	go func() {
 		s.mu.Lock()
-		s.byGID[goid()] = t
+		t.gid = goid()
+		s.byGID[t.gid] = t
 		s.nreg++
 		s.mu.Unlock()
 		<-t.gate
@@ -148,6 +154,10 @@ func (s *Sched) settle(t *Task) {
 			if t != nil {
 				if p, d, _ := t.state(); !p && !d {
 					t.blocked = true
+					starveMutexWaiters()
+					if s.TraceBlocked {
+						s.Trace = append(s.Trace, "blocked "+t.Name+" "+goroutineInfo(t.gid))
+					}
 				}
 			}
 			return
@@ -156,9 +166,13 @@ func (s *Sched) settle(t *Task) {
 	}
 	// fallback (slow I/O etc.)
 	synctest.Wait()
+	s.SlowSettles++
 	if t != nil {
 		if p, d, _ := t.state(); !p && !d {
 			t.blocked = true
+			if s.TraceBlocked {
+				s.Trace = append(s.Trace, "blocked "+t.Name+" "+goroutineInfo(t.gid))
+			}
 		}
 	}
 }
@@ -178,6 +192,86 @@ var quietStates = [][]byte{
 // only the lock's holder can make progress.
 var mutexStates = [][]byte{
 	[]byte("sync.Mutex.Lock"), []byte("sync.RWMutex.RLock"), []byte("sync.RWMutex.Lock"), []byte("semacquire"),
+}
+
+// runtimeSemWait reports whether a goroutine in state "semacquire" waits for one
+// of the runtime's own semaphores (a goroutine that is about to start a garbage
+// collection waits for the world semaphore, which runtime.Stack itself holds
+// while it takes the dump): that goroutine is running, not at rest. rest is the
+// dump from the end of the goroutine's header line on.
+func runtimeSemWait(st, rest []byte) bool {
+	if !bytes.HasPrefix(st, []byte("semacquire")) {
+		return false
+	}
+	body := rest
+	if i := bytes.Index(body, []byte("\ngoroutine ")); i >= 0 {
+		body = body[:i]
+	}
+	for _, f := range [][]byte{[]byte("runtime.gcStart"), []byte("runtime.stopTheWorld"), []byte("runtime.GC("), []byte("runtime.gcMarkDone"), []byte("runtime.gcMarkTermination"), []byte("runtime.ReadMemStats"), []byte("runtime.Stack(")} {
+		if bytes.Contains(body, f) {
+			return true
+		}
+	}
+	return false
+}
+
+// starveMutexWaiters makes the behaviour of sync.Mutex independent of real
+// time. A waiter that wakes up after more than 1 ms (measured on the real
+// clock, also inside a bubble) switches the mutex to starvation mode, in which
+// Unlock hands the lock to the waiter instead of letting the unlocking goroutine
+// re-take it. Whether a waiter crosses that threshold would depend on the
+// machine's load. Called when a task has just been found blocked: after the
+// pause every waiter has waited longer than the threshold, so the starvation
+// path is taken in every execution.
+func starveMutexWaiters() {
+	if !bubbleMutexWaiter() {
+		return
+	}
+	ts := syscall.Timespec{Nsec: 1300000}
+	_ = syscall.Nanosleep(&ts, nil)
+}
+
+// goroutineInfo returns the wait state and the innermost frames of a goroutine
+// from the dump taken last (stackBuf).
+func goroutineInfo(gid uint64) string {
+	n := runtime.Stack(stackBuf, true)
+	b := stackBuf[:n]
+	key := []byte(fmt.Sprintf("goroutine %d [", gid))
+	i := bytes.Index(b, key)
+	if i < 0 {
+		return "?"
+	}
+	b = b[i:]
+	if j := bytes.Index(b[1:], []byte("\ngoroutine ")); j >= 0 {
+		b = b[:j+1]
+	}
+	lines := strings.Split(string(b), "\n")
+	if os.Getenv("VERIF_TRACE_BLOCKED") == "2" && !strings.Contains(lines[0], "synctest") {
+		fmt.Fprintf(os.Stderr, "RAWBLOCKED\n%s\n", b)
+	}
+	out := lines[0]
+	if i := strings.IndexByte(out, '['); i >= 0 {
+		out = out[i:]
+	}
+	for k := 1; k < len(lines) && k < 12; k += 2 {
+		f := strings.TrimSpace(lines[k])
+		if i := strings.LastIndexByte(f, '('); i >= 0 {
+			f = f[:i]
+		}
+		out += " < " + f
+	}
+	return out
+}
+
+// inGC reports whether the goroutine whose dump starts at rest (end of its
+// header line) is inside the collector's start or assist path.
+func inGC(rest []byte) bool {
+	body := rest
+	if i := bytes.Index(body, []byte("\ngoroutine ")); i >= 0 {
+		body = body[:i]
+	}
+	return bytes.Contains(body, []byte("runtime.gcStart")) || bytes.Contains(body, []byte("runtime.gcAssistAlloc")) ||
+		(bytes.Contains(body, []byte("runtime.mallocgc")) && bytes.Contains(body, []byte("verif/sim.")))
 }
 
 // bubbleMutexWaiter reports whether a goroutine of the bubble is blocked on a
@@ -205,6 +299,9 @@ func bubbleMutexWaiter() bool {
 		}
 		st := hdr[lb+1 : rb]
 		if !bytes.Contains(st, []byte("synctest bubble")) {
+			continue
+		}
+		if runtimeSemWait(st, b) {
 			continue
 		}
 		for _, w := range mutexStates {
@@ -246,7 +343,16 @@ func bubbleQuiescent() bool {
 		}
 		st := hdr[lb+1 : rb]
 		if !bytes.Contains(st, []byte("synctest bubble")) {
+			// The runtime takes a goroutine out of its bubble while it starts a
+			// garbage collection or assists one (mgc.go, mgcmark.go): such a
+			// goroutine is busy, whichever bubble it belongs to.
+			if inGC(b) || bytes.HasPrefix(st, []byte("runnable")) || bytes.HasPrefix(st, []byte("running")) {
+				return false
+			}
 			continue
+		}
+		if runtimeSemWait(st, b) {
+			return false
 		}
 		quiet := false
 		for _, w := range quietStates {
